@@ -1606,6 +1606,48 @@ func (eval Evaluator) InnerSum(ctIn *rlwe.Ciphertext, batchSize, n int, opOut *r
 	return
 }
 
+// Replicate applies an optimized replication on the Ciphertext (log2(n) + HW(n) rotations with double hoisting).
+// It acts as the inverse of a inner sum (summing elements from left to right).
+// The replication is parameterized by the size of the sub-vectors to replicate "batchSize" and
+// the number of times 'n' they need to be replicated.
+// To ensure correctness, a gap of zero values of size batchSize * (n-1) must exist between
+// two consecutive sub-vectors to replicate.
+// A BGV/BFV plaintext is a 2 x ctIn.Slots()/2 matrix: when n*batchSize equals the number of slots the
+// replication spans both rows, the second row being obtained from the first one with [Evaluator.RotateRows].
+func (eval Evaluator) Replicate(ctIn *rlwe.Ciphertext, batchSize, n int, opOut *rlwe.Ciphertext) (err error) {
+
+	if n <= 0 || batchSize <= 0 {
+		return fmt.Errorf("replicate: invalid parameter (n <= 0 or batchSize <= 0)")
+	}
+
+	if l := n * batchSize; l > ctIn.Slots()>>1 {
+
+		if l != ctIn.Slots() {
+			return fmt.Errorf("replicate: invalid parameters (n*batchSize=%d is larger than a row and is not #slots=%d)", l, ctIn.Slots())
+		}
+
+		if n == 1 {
+			opOut.Copy(ctIn)
+			return
+		}
+
+		// Fills the first row, then adds its copy on the second row
+		if err = eval.Evaluator.PartialTracesSum(ctIn, -batchSize, n/2, opOut); err != nil {
+			return
+		}
+
+		ctTmp := &rlwe.Ciphertext{Element: rlwe.Element[ring.Poly]{Value: []ring.Poly{eval.BuffQP[2].Q, eval.BuffQP[3].Q}}}
+		ctTmp.MetaData = opOut.MetaData
+		if err = eval.RotateRows(opOut, ctTmp); err != nil {
+			return
+		}
+
+		return eval.Add(opOut, ctTmp, opOut)
+	}
+
+	return eval.Evaluator.PartialTracesSum(ctIn, -batchSize, n, opOut)
+}
+
 // RotateAndAdd computes the sum of pt_i, 0 <= i < n, where pt_i is the underlying plaintext rotated ([Evaluator.RotateRows]) by batchSize*i slots.
 //
 // Example: for batchSize=3, n=2, ctIn.Slots()=16:
